@@ -434,6 +434,13 @@ StepSnap(mm0, e) ==
               THEN Check(m4, AllKeys = 0 /\ e.nkeys = 0 /\ e.tw = 0 /\ e.ew = 0 /\ Len(e.keys) = 0, "C17", "not-reclaimed-after-drain", e,
                          [keycount |-> AllKeys, live_keys |-> e.nkeys, live_timeout_entries |-> e.tw, live_expiry_entries |-> e.ew])
               ELSE m4
+        \* "the keys' values are gone, and no internal record of a finished request is reachable": a key record that went
+        \* back to the pool of recycled records (not live) carries no value, no holder and no count of the key it served -
+        \* the next key that is given this record would inherit them.  Judged on every snapshot.
+        m5b == IF "pooled_dirty" \in DOMAIN e
+               THEN Check(m5, e.pooled_dirty = 0, "C17", "recycled-key-record-keeps-state-of-its-old-key", e,
+                          [records |-> e.pooled_dirty, value |-> e.pooled_value])
+               ELSE m5
         \* learn which holds are persisted / replicated (needed by the C10 expiry clause)
         AofOf(kk, lid) == LET I == {i \in K : <<e.keys[i].db, e.keys[i].key>> = kk} IN
                           IF I = {} THEN FALSE
@@ -452,7 +459,7 @@ StepSnap(mm0, e) ==
         m6 == IF mm.status # 1 /\ mm.seq
               THEN Check(m1, Diff = {}, "C10", "non-leader-holds-changed", e, [keys |-> SetToSeq(Diff)])
               ELSE m1
-    IN learn(IF mm.seq /\ mm.status = 1 THEN m5 ELSE m6)
+    IN learn(IF mm.seq /\ mm.status = 1 THEN m5b ELSE m6)
 
 -----------------------------------------------------------------------------
 \* role change: the upper expiry bound of C06 is claimed on a leader only; holds that live through a
